@@ -238,7 +238,11 @@ def run(ctx):
             worst = max(worst, w)
             for sig, what in V:
                 ctx.violation(sig, what, {"kind": kind, "task": list(t)})
+    # WHFast512 exists only in the AVX512 build: its part runs in a process of its own (mc/w512.py)
+    from .. import w512
+    n_w512 = w512.run(ctx, "C10")
     cov = {
+        "whfast512_cases": n_w512,
         "evaluations": len(jt) + len(st), "distinct_nontrivial": len(jt) + len(st),
         "rule": "JANUS: order{2,4,6,8,10} x scale{1e-16,1e-12,1e-8} x N{2,3,4} x n{1,2,5,50(,500)} x 4 grid-representable initial conditions x first direction x {plain, recalculation flag set by the user before the run, run started from a state reached after modifying a particle and requesting recalculation once}; "
                 "symmetric schemes: WHFast x 4 coordinate systems x safe/unsafe, 10 uncorrected SABA types, 18 unprocessed EOS splittings, LEAPFROG on {S3, S4G, hyperbolic flyby} and SEI (free, self-gravitating, shearing box) x n x direction",
